@@ -3,6 +3,7 @@ CONSTANTS Kinds = {"plain", "mixed", "enc", "root"}
           MixedServerSet = {"none", "rel"}
           MixedCoreServers = {}
           MixedMethKeys = {"G", "P", "GP"}
+          PlainMethKeys = {"G", "P", "GP"}
           MaxLen = 2
           MaxT = 3
           ServerSet = {"none", "rel"}
@@ -11,5 +12,6 @@ CONSTANTS Kinds = {"plain", "mixed", "enc", "root"}
           CoreServers = {}
           Slice = 8
           Seed = 1
+          DesignAll = TRUE
 INVARIANTS DesignOK Emit
 CHECK_DEADLOCK FALSE
